@@ -253,52 +253,32 @@ def rule_num(prog, rep):
                             rep.instance("C10.NUM", "%s (%s): value built only under valid_syntax(v)" % (f.name.split("::")[-1], ty))
                         else:
                             rep.finding("C10.NUM", f.name, "unvalidated:" + ty, "Deserialize for %s builds the value without (or on the wrong side of) %s::valid_syntax of the visited text" % (ty, ty), f.loc(s[3][0]))
-    # IntValue::valid_syntax: slice patterns
-    vs = prog.fn(r"impl apollo_compiler::ast::IntValue>::valid_syntax$|^apollo_compiler::ast::IntValue::valid_syntax$")
-    body = prog.hir_body(vs)["body"]
-    m = find_single_match(body)
-    problems = []
-    if m is None:
-        raise Undecided("IntValue::valid_syntax is not a single match over slice patterns")
-    sc = m["scrut"]
-    chain = []
-    n = sc
-    while isinstance(n, dict) and n.get("k") == "mcall":
-        chain.append(n["m"])
-        n = n["recv"]
-    if chain != ["as_bytes", "unwrap_or", "strip_prefix"]:
-        problems.append("scrutinee is not text.strip_prefix('-').unwrap_or(text).as_bytes() (%s)" % chain)
-    else:
-        sp = sc["recv"]["recv"]
-        a = strip_expr(sp["args"][0])
-        if not (a.get("k") == "lit" and a.get("t") == "char" and a.get("v") == ord("-")):
-            problems.append("stripped prefix is not '-'")
-    def rng(p):
-        if p.get("k") == "range" and p["lo"].get("t") in ("byte", "int") and p.get("incl"):
-            return (p["lo"]["v"], p["hi"]["v"])
-        return None
-    arms = m["arms"]
-    if len(arms) != 3:
-        problems.append("expected three arms")
-    else:
-        p0, p1, p2 = arms[0]["pat"], arms[1]["pat"], arms[2]["pat"]
-        if not (p0.get("k") == "slice" and len(p0["before"]) == 1 and p0.get("mid") is None and not p0["after"] and rng(p0["before"][0]) == (0x30, 0x39)
-                and strip_expr(arms[0]["body"]).get("v") is True):
-            problems.append("first arm is not `[b'0'..=b'9'] => true`")
-        if not (p1.get("k") == "slice" and len(p1["before"]) == 1 and p1.get("mid") is not None and not p1["after"] and rng(p1["before"][0]) == (0x31, 0x39)):
-            problems.append("second arm is not `[b'1'..=b'9', rest @ ..]`")
-        else:
-            b1 = strip_expr(arms[1]["body"])
-            okb = b1.get("k") == "mcall" and b1["m"] == "all" and any(x.get("k") == "mcall" and x["m"] == "is_ascii_digit" for x in walk(b1["args"][0]))
-            if not okb:
-                problems.append("second arm does not require all remaining bytes to be ASCII digits")
-        if not (p2.get("k") == "_" and strip_expr(arms[2]["body"]).get("v") is False):
-            problems.append("last arm is not `_ => false`")
-    if problems:
-        for i, pr in enumerate(problems):
-            rep.finding("C10.NUM", vs.name, "int-syntax#%d" % i, "IntValue::valid_syntax no longer denotes -?(0|[1-9][0-9]*): %s" % pr, vs.loc())
-    else:
-        rep.instance("C10.NUM", "IntValue::valid_syntax slice patterns denote -?([0-9]|[1-9][0-9]*)")
+    # the languages of IntValue::valid_syntax and FloatValue::valid_syntax, computed from their HIR
+    # as regular languages (analyzer/strlang.py) and compared with the grammar's:
+    #   IntValue   :: -? (0 | NonZeroDigit Digit*)
+    #   FloatValue :: IntegerPart (FractionalPart | ExponentPart | FractionalPart ExponentPart)
+    #   FractionalPart :: . Digit+      ExponentPart :: (e|E) (+|-)? Digit+
+    from ..strlang import StrLang, from_regex
+    sl = StrLang(prog, "apollo_compiler")
+    classes = {"digit": set("05"), "nz": set("5")}
+    refs = {
+        "IntValue": from_regex(sl.alpha, r"-?(0|{nz}{digit}*)", classes),
+        "FloatValue": from_regex(sl.alpha, r"-?(0|{nz}{digit}*)(.{digit}+|(e|E)(\+|-)?{digit}+|.{digit}+(e|E)(\+|-)?{digit}+)", classes),
+    }
+    for ty, ref in refs.items():
+        vs = prog.fn(r"impl apollo_compiler::ast::%s>::valid_syntax$|^apollo_compiler::ast::%s::valid_syntax$" % (ty, ty))
+        lang = sl.language(vs.name)
+        extra = lang.minus(ref).witness()
+        missing = ref.minus(lang).witness()
+
+        def show(w):
+            return w.replace("5", "5").replace("x", "x")
+        if extra is None and missing is None:
+            rep.instance("C10.NUM", "%s::valid_syntax accepts exactly the grammar's %s (language equality of the %d-state automaton extracted from the code with the grammar's)" % (ty, ty, len(lang.trans)))
+        if extra is not None:
+            rep.finding("C10.NUM", vs.name, "accepts-invalid", "%s::valid_syntax accepts `%s`, which is not a %s of the grammar: deserialization builds a value whose text does not lex as a number" % (ty, show(extra), ty), vs.loc())
+        if missing is not None:
+            rep.finding("C10.NUM", vs.name, "rejects-valid", "%s::valid_syntax rejects `%s`, which the grammar accepts" % (ty, show(missing)), vs.loc())
 
 
 def rule_type(prog, rep):
